@@ -20,6 +20,17 @@ def need(x, msg):
     return x
 
 
+def as_setop(t):
+    """(`-`|`|`|`&`, left, right) for `a - b` and for `a.difference(b)` / `a.union(b)` / `a.intersection(b)`."""
+    if is_term(t) and t[0] == "binop" and t[1] in ("-", "|", "&"):
+        return t[1], t[2], t[3]
+    if is_term(t) and t[0] == "call" and t[1][0] == "attr" and len(t[2]) == 1 and not t[3]:
+        op = {"difference": "-", "union": "|", "intersection": "&"}.get(t[1][2])
+        if op:
+            return op, t[1][1], t[2][0]
+    return None
+
+
 def calls_in(t, *names):
     """All sub-terms of ``t`` that are calls to one of ``names`` (dotted)."""
     return [s for s in walk(t) if s[0] == "call" and callee_name(s) in names]
@@ -262,13 +273,17 @@ def exists_formula(t, flags):
     raise AnalysisError(f"flag not recognised as an existence test: {show(t)[:100]}")
 
 
-def choice_axes_info(ret):
+def choice_axes_info(ret, prog=None):
     """Parse ``tuple(i [+k] for i, ax in enumerate(AXES) if ax in CHOICE)``.
 
     Returns dict(axes=term, choice=term, offset=int) or raises.
     """
     from lcmsa.alg import deindex
 
+    if prog is not None:
+        from lcmsa.rules_kernel import comprehend
+
+        ret = comprehend(prog, ret)  # a loop that appends under an `if` is the comprehension
     ret = deindex(ret)  # `for i in range(len(AXES)) if AXES[i] in CHOICE` is the same iteration
     for s in walk(ret):
         if s[0] != "comp" or s[1] not in ("list", "gen", "set") or len(s[3]) != 1:
